@@ -130,16 +130,25 @@ func (x *Exec) invoke(st *State, ins ssa.Instruction, c *ssa.CallCommon, fnv Val
 	case c.IsInvoke():
 		fc = x.externForInvoke(c)
 		name = typeKey(c.Value.Type()) + "." + c.Method.Name()
-		// receiver must be non-nil
-		recv := st.scalarTerm(args[0], c.Value.Type())
-		g := Neq(recv, IntC(0))
-		x.oblige(st, "nil", x.anchor(ins, "invoke "+c.Method.Name()), g, "method call on non-nil interface", ins, nil)
-		st.Assume(g)
 	case callee != nil:
 		fc = x.contractFor(callee)
 		name = FullName(callee)
 	default:
 		name = "dynamic"
+	}
+	dynName := ""
+	if callee == nil && !c.IsInvoke() {
+		if u, ok := c.Value.(*ssa.UnOp); ok {
+			if a, ok := u.X.(*ssa.Alloc); ok && a.Comment != "" {
+				dynName = a.Comment
+			}
+			if fa, ok := u.X.(*ssa.FieldAddr); ok {
+				dynName = fa.X.Type().Underlying().(*types.Pointer).Elem().Underlying().(*types.Struct).Field(fa.Field).Name()
+			}
+		}
+		if fld, ok := c.Value.(*ssa.Field); ok {
+			dynName = fld.X.Type().Underlying().(*types.Struct).Field(fld.Field).Name()
+		}
 	}
 	defer func(n int) {
 		// the event is recorded after the "before" site clauses were evaluated
@@ -148,6 +157,8 @@ func (x *Exec) invoke(st *State, ins ssa.Instruction, c *ssa.CallCommon, fnv Val
 			ev = "call:" + FuncName(originOf(callee))
 		} else if c.IsInvoke() {
 			ev = "invoke:" + c.Method.Name()
+		} else if dynName != "" {
+			ev = "dyn:" + dynName
 		}
 		if ev != "" && !st.Dead {
 			// keep program order: insert at the position the call started
@@ -175,6 +186,9 @@ func (x *Exec) invoke(st *State, ins ssa.Instruction, c *ssa.CallCommon, fnv Val
 					siteName = fa.X.Type().Underlying().(*types.Pointer).Elem().Underlying().(*types.Struct).Field(fa.Field).Name()
 				}
 			}
+			if dynName != "" {
+				siteName = dynName
+			}
 		}
 		siteName = x.siteWithOrdinal(ins, siteName)
 		x.siteBefore(st, ins, siteName, args)
@@ -193,6 +207,13 @@ func (x *Exec) invoke(st *State, ins ssa.Instruction, c *ssa.CallCommon, fnv Val
 				x.siteAfter(st, ins, siteName, args, rv)
 			}
 		}()
+	}
+	if c.IsInvoke() {
+		// receiver must be non-nil (after the site's own assumptions were taken into account)
+		recv := st.scalarTerm(args[0], c.Value.Type())
+		g := Neq(recv, IntC(0))
+		x.oblige(st, "nil", x.anchor(ins, "invoke "+c.Method.Name()), g, "method call on non-nil interface", ins, nil)
+		st.Assume(g)
 	}
 	// special-cased library semantics (sync, atomic, ...)
 	if callee != nil {
@@ -234,6 +255,11 @@ func (x *Exec) invoke(st *State, ins ssa.Instruction, c *ssa.CallCommon, fnv Val
 		x.usedPureMethods["codec:"+c.Method.Name()] = true
 		setRes(x.freshResults(st, sig, "r$"+c.Method.Name()))
 		st.bumpAlloc()
+		return true
+	}
+	// package initialisers of dependencies: no effect on the state we model
+	if callee != nil && callee.Name() == "init" && !x.inRepo(callee) {
+		setRes(nil)
 		return true
 	}
 	// havoc call
@@ -719,6 +745,14 @@ func (x *Exec) callContract(st *State, ins ssa.Instruction, fc *FuncContract, ca
 
 // applyModifies havocs what the callee's frame condition allows it to change.
 func (x *Exec) applyModifies(st *State, env *Env, fc *FuncContract, args []Value) {
+	// map contents are exempt from frame conditions, so every call may change them
+	if !fc.Pure {
+		for k, h := range st.Heap {
+			if strings.HasPrefix(k, "map:") {
+				st.Heap[k] = Fresh("H$"+k, h.Sort)
+			}
+		}
+	}
 	if fc.ModAll {
 		st.havocAllHeap()
 		st.havocAllMem()
